@@ -302,3 +302,91 @@ Proof.
   split; [reflexivity|]. split; [reflexivity|].
   eexists (firstn 18 sendEvents), []. split; [|reflexivity]. reflexivity.
 Qed.
+
+(* ---- reservation schedule of BucketStore.Series --------------------------------------------- *)
+
+Lemma all_ok_within limit nums : sum_n nums < two64 ->
+  forallb (fun b => b) (reserves (new_limiter limit) nums) = within limit (sum_n nums).
+Proof.
+  intro W. unfold within. destruct (limit =? 0) eqn:E.
+  - apply N.eqb_eq in E. subst. rewrite limiter_unlimited by reflexivity. cbn [orb]. clear W.
+    induction nums as [|x r IHr]; [reflexivity|]. cbn [map forallb andb]. exact IHr.
+  - apply N.eqb_neq in E. cbn [orb]. destruct (limiter_sound limit nums E W) as (_ & H & _).
+    apply eq_true_iff_eq. rewrite H, N.leb_le. reflexivity.
+Qed.
+
+Lemma sum_filter_pos l : sum_n (filter (fun k => 0 <? k) l) = sum_n l.
+Proof.
+  induction l as [|x l IH]; cbn [filter sum_n]; [reflexivity|].
+  destruct (0 <? x) eqn:E; cbn [sum_n]; [lia|]. apply N.ltb_ge in E. lia.
+Qed.
+
+Lemma sum_lengths blocks : sum_n (map (fun b : list N => N.of_nat (length b)) blocks) = N.of_nat (length (concat blocks)).
+Proof.
+  induction blocks as [|b r IH]; cbn [map sum_n concat]; [reflexivity|]. rewrite app_length, IH. lia.
+Qed.
+
+Lemma series_reserved_total blocks : sum_n (series_reservations blocks) = N.of_nat (length (concat blocks)).
+Proof. unfold series_reservations. rewrite sum_filter_pos. apply sum_lengths. Qed.
+
+Lemma chunks_reserved_total skip blocks : sum_n (chunk_reservations skip blocks) = returned_chunks skip blocks.
+Proof. unfold chunk_reservations, returned_chunks. destruct skip; [reflexivity|]. apply sum_filter_pos. Qed.
+
+Lemma returned_le_reserved blocks : returned_series blocks <= N.of_nat (length (concat blocks)).
+Proof.
+  unfold returned_series. generalize (concat blocks). intro l.
+  induction l as [|x l IH]; cbn [filter length]; [lia|]. destruct (0 <? x); cbn [length]; lia.
+Qed.
+
+Lemma within_mono limit a b : a <= b -> within limit b = true -> within limit a = true.
+Proof.
+  unfold within. intros L H. apply orb_true_iff in H as [H|H]; [rewrite H; reflexivity|].
+  apply N.leb_le in H. apply orb_true_iff. right. apply N.leb_le. lia.
+Qed.
+
+Lemma store_ok_spec sl cl skip blocks :
+  N.of_nat (length (concat blocks)) < two64 -> returned_chunks skip blocks < two64 ->
+  store_ok sl cl skip blocks = within sl (N.of_nat (length (concat blocks))) && within cl (returned_chunks skip blocks).
+Proof.
+  intros W1 W2. unfold store_ok.
+  rewrite all_ok_within by (rewrite series_reserved_total; exact W1).
+  rewrite all_ok_within by (rewrite chunks_reserved_total; exact W2).
+  rewrite series_reserved_total, chunks_reserved_total. reflexivity.
+Qed.
+
+(* a request that succeeds returns at most the limits: returned <= reserved <= limit *)
+Lemma store_bound sl cl skip blocks :
+  N.of_nat (length (concat blocks)) < two64 -> returned_chunks skip blocks < two64 ->
+  store_ok sl cl skip blocks = true ->
+  within sl (returned_series blocks) = true /\ within cl (returned_chunks skip blocks) = true.
+Proof.
+  intros W1 W2 H. rewrite (store_ok_spec sl cl skip blocks W1 W2) in H. apply andb_true_iff in H as [H1 H2].
+  split; [|exact H2]. apply (within_mono sl _ _ (returned_le_reserved blocks) H1).
+Qed.
+
+(* a request whose result exceeds a limit is refused *)
+Lemma store_no_silent_truncation sl cl skip blocks :
+  N.of_nat (length (concat blocks)) < two64 -> returned_chunks skip blocks < two64 ->
+  (sl <> 0 /\ sl < returned_series blocks) \/ (cl <> 0 /\ cl < returned_chunks skip blocks) ->
+  store_ok sl cl skip blocks = false.
+Proof.
+  intros W1 W2 H. rewrite (store_ok_spec sl cl skip blocks W1 W2). unfold within.
+  pose proof (returned_le_reserved blocks) as L.
+  destruct H as [[H1 H2]|[H1 H2]].
+  - apply N.eqb_neq in H1. rewrite H1. cbn [orb].
+    assert (E : N.of_nat (length (concat blocks)) <=? sl = false) by (apply N.leb_gt; lia). rewrite E. reflexivity.
+  - apply N.eqb_neq in H1. rewrite H1. cbn [orb].
+    assert (E : returned_chunks skip blocks <=? cl = false) by (apply N.leb_gt; lia). rewrite E. apply andb_false_r.
+Qed.
+
+Lemma store_case_pred sl cl skip blocks sres cres tseries :
+  N.of_nat (length (concat blocks)) < two64 -> returned_chunks skip blocks < two64 ->
+  tseries <= returned_series blocks ->
+  pred_ok (CStore sl cl skip blocks (store_ok sl cl skip blocks) (negb (store_ok sl cl skip blocks)) sres cres
+                  tseries (returned_chunks skip blocks) tseries (returned_chunks skip blocks)) = true.
+Proof.
+  intros W1 W2 T. cbn [pred_ok]. destruct (store_ok sl cl skip blocks) eqn:E.
+  - destruct (store_bound sl cl skip blocks W1 W2 E) as [B1 B2].
+    rewrite (within_mono sl _ _ T B1), B2, !N.eqb_refl. reflexivity.
+  - reflexivity.
+Qed.
